@@ -17,6 +17,7 @@ EXPLANATION = (
     "bodies in their roles; build() is the block of all components. (R7) no Result is dropped in the lifecycle files. (R8, K6) "
     "StateReq::require is Ok iff the state contains T. NOT decided: programs beyond the size bound (the node implementations are loops "
     "over children / straight-line code, larger programs add no new paths through them); what user components do. ")
+EXPLANATION += " " + '(R9 revised) the loop counters of the bounded program semantics are cells of the typed store (K19), so a counter reset through insert, the entry API, set_value or an in-place write is judged by the scope that ends up holding which count.'
 ASSUMPTIONS = ["leaf components and conditions are opaque: they record their call and return Ok / the scripted value / the injected error",
                "the reference structured-program interpreter in rules/progsem.py (40 lines) is the specification of the property statement"]
 
